@@ -12,8 +12,9 @@ EXPLANATION = (
     "backpressure functions agree arm by arm on BackpressureStrategy (admit / evict+admit / reject); (c) the Kleene caps of "
     "C03; (d) R-ARITH: no panicking i64/u64 arithmetic on event-derived values in the functions reachable from the SASE "
     "entry points (counters incremented once per event are listed, not flagged)."
+    " The empty-vector exception holds only for min_by_key over the whole vector: a filter / skip / take before it makes the no-eviction fallback reachable with a full vector and is reported."
 )
-DECIDED = ["runs per partition never exceed max_runs (for max_runs >= 1)", "both backpressure implementations agree per strategy", "Kleene caps (shared with C03)"]
+DECIDED = ["runs per partition never exceed max_runs (for max_runs >= 1)", "both backpressure implementations agree per strategy", "Kleene caps (shared with C03)", "the no-eviction fallback of an evicting strategy is reachable only with an empty run vector"]
 NOT_DECIDED = ["panics from indexing nfa.states[..] (depends on NFA construction)", "max_runs == 0"]
 
 S = "varpulis_runtime::sase::"
